@@ -46,7 +46,7 @@ PROPS = {
                   "no-response conditions)",
         rule="exhaustive: all 65536 values of the header flag word x 2 bodies (mixed-case question / no question) x both "
              "transports; plus scenarios with random flag words, QR set, 0/1/2 questions, QNAMEs that are pointers into "
-             "the header, mixed-case QNAMEs, and hostile mutations. distinct = (opcode, RD, question present, flag bits) classes; half of the scenarios carry TSIG key sets and a third of their requests are signed (valid, stale, corrupted, unknown key, and valid with a TSIG Original ID that differs from the header ID); each shard also runs a small pass through a real I/O provider (blocking or Tokio; 10 TCP and 10 UDP batches): the octets received must equal handle_message's response to each request alone",
+             "the header, mixed-case QNAMEs, and hostile mutations. distinct = (opcode, RD, question present, flag bits) classes; half of the scenarios carry TSIG key sets and a third of their requests are signed (valid, stale, corrupted, unknown key, and valid with a TSIG Original ID that differs from the header ID); each shard also runs a small pass through a real I/O provider (blocking or Tokio; 10 TCP and 10 UDP batches): the octets received must equal handle_message's response to each request alone; a quarter of the scenarios switch rate limiting on with limits that are never reached (every response passes through the limiter's classification and must come out unchanged)",
         assumptions=COMMON_ASSUMPTIONS + ["RRL disabled so that a missing response is attributable"],
         quick=plans(dict(build="dbg", nshards=16)),
         thorough=plans(dict(build="dbg", nshards=16), dict(build="rel", nshards=16), dict(build="asan", nshards=16, scale=0.2), dict(build="miri", nshards=16, timeout=3000)),
@@ -86,7 +86,7 @@ PROPS = {
                   "over decoded responses, for HashMapTreeCatalog and SingleZoneCatalog",
         rule="catalogs of 1-5 entries over nested names in IN/CH/HS/CLASS65280 in the states loaded / not-yet-loaded / "
              "failed; requests with opcodes 0-15, with and without a question, QCLASS ANY/NONE/unknown, QTYPE "
-             "AXFR/IXFR/MAILA/MAILB, names inside, between and outside the entries. distinct = (expected rule, response shape); half of the catalogs are edited histories: 1-3 decoy entries below, above and beside the lasting entries are inserted and removed again in random order; a third of the scenarios carry TSIG keys and a third of their requests are validly signed (same outcome expected); the name list contains, for every catalog entry, wire-confusable names (one label spelling the entry's wire form, or only its first label)",
+             "AXFR/IXFR/MAILA/MAILB, names inside, between and outside the entries. distinct = (expected rule, response shape); half of the catalogs are edited histories: 1-3 decoy entries below, above and beside the lasting entries are inserted and removed again in random order; a third of the scenarios carry TSIG keys and a third of their requests are validly signed (same outcome expected); the name list contains, for every catalog entry, wire-confusable names (one label spelling the entry's wire form, or only its first label); a quarter of the scenarios switch rate limiting on with limits that are never reached (every response passes through the limiter's classification and must come out unchanged)",
         assumptions=COMMON_ASSUMPTIONS,
         quick=plans(dict(build="dbg", nshards=16)),
         thorough=plans(dict(build="dbg", nshards=16), dict(build="rel", nshards=16), dict(build="asan", nshards=16, scale=0.2), dict(build="miri", nshards=16, timeout=3000)),
@@ -97,7 +97,7 @@ PROPS = {
         rule="well-formed requests (with OPT, junk records in every section) damaged by: truncation at every kind of "
              "offset, appended junk (1-300 octets), each count +-1 / 0 / 65535, RDLENGTH edits, OPT/TSIG moved to "
              "answer/authority, duplicated OPT, pointer retargeting, inserts, deletes, flips; 5/6 of requests are damaged. "
-             "Judged when P finds a FORMERR-class problem (or a QUERY without question). distinct = (reason, response shape); a fifth of the requests get 0/1/2 OPT records at any position with arbitrary version / extended-RCODE octets and owners, so that duplicate-OPT FORMERR competes with BADVERS; an eighth of the requests carry a record whose owner labels total 252-256 octets, ended by a root label or a pointer to the QNAME (the 255-octet name limit decides whether the record can be delimited)",
+             "Judged when P finds a FORMERR-class problem (or a QUERY without question). distinct = (reason, response shape); a fifth of the requests get 0/1/2 OPT records at any position with arbitrary version / extended-RCODE octets and owners, so that duplicate-OPT FORMERR competes with BADVERS; an eighth of the requests carry a record whose owner labels total 252-256 octets, ended by a root label or a pointer to the QNAME (the 255-octet name limit decides whether the record can be delimited); a quarter of the scenarios switch rate limiting on with limits that are never reached (every response passes through the limiter's classification and must come out unchanged)",
         assumptions=COMMON_ASSUMPTIONS + ["a TSIG TTL with the top bit set is not judged (RFC 2181 §8 reads it as zero)"],
         quick=plans(dict(build="dbg", nshards=16)),
         thorough=plans(dict(build="dbg", nshards=16), dict(build="rel", nshards=16), dict(build="asan", nshards=16, scale=0.2), dict(build="miri", nshards=16, timeout=3000)),
@@ -108,7 +108,7 @@ PROPS = {
         rule="requests with 0/1/2 OPT records at any position of any section, OPT TTL octets drawn from version x "
              "{0,1,0x7f,0x80,0xff} extended-RCODE bytes x flag words, payload sizes incl. 0/511/512/65535/random, non-root "
              "owners, valid and damaged options, other additional records before and after; server payload sizes 512..65535. "
-             "distinct = (OPT reached, payload bucket / BADVERS / owner error, response shape); a third of the scenarios carry TSIG keys and a third of their requests are validly signed",
+             "distinct = (OPT reached, payload bucket / BADVERS / owner error, response shape); a third of the scenarios carry TSIG keys and a third of their requests are validly signed; a quarter of the scenarios switch rate limiting on with limits that are never reached (every response passes through the limiter's classification and must come out unchanged); a tenth of the requests have no question and a twelfth another opcode",
         assumptions=COMMON_ASSUMPTIONS,
         quick=plans(dict(build="dbg", nshards=16)),
         thorough=plans(dict(build="dbg", nshards=16), dict(build="rel", nshards=16), dict(build="asan", nshards=16, scale=0.2), dict(build="miri", nshards=16, timeout=3000)),
@@ -168,7 +168,7 @@ PROPS = {
              "names); 24 signed queries per scenario drawn from: valid (time offset within fudge-10 s), allowed truncation, "
              "corrupted MAC, unknown key, unknown algorithm, key used with the other algorithm, MAC length outside "
              "[max(10,half),full], stale and future times (>= 10 s outside the window), corrupted MAC + stale; key names "
-             "spelled in random case; UDP and TCP; EDNS on/off. distinct = (variant, algorithm, RCODE, TC) classes; every 64th case runs the TSIG size sweep (QNAME length 2..255 x key name near the limit x valid / stale / corrupted / unknown key / short MAC x no EDNS / 512 / server size): every request must get a response",
+             "spelled in random case; UDP and TCP; EDNS on/off. distinct = (variant, algorithm, RCODE, TC) classes; every 64th case runs the TSIG size sweep (QNAME length 2..255 x key name near the limit x valid / stale / corrupted / unknown key / short MAC x no EDNS / 512 / server size): every request must get a response; one request in twelve carries enough ignorable additional records to make ARCOUNT 255 / 256 / 257 / 512",
         assumptions=COMMON_ASSUMPTIONS + [
             "the server reads the real clock: time offsets are drawn >= 10 s inside or outside the fudge window, and server "
             "times are accepted within 5 s of the harness's clock",
@@ -186,7 +186,7 @@ PROPS = {
              "response / subsequent with both algorithms, 1-128-octet keys, times 0 / 2^48-1 / random, fudge 0/1/300/65535, "
              "errors incl. BADTIME (other-data), prior MACs of 0-64 octets; per message: 5 time probes (edges of the window), "
              "9 MAC lengths around the allowed range, a wrong truncated MAC, bit 0 flipped in every octet from offset 2 "
-             "(<= 260 octets in quick), corrupted prior MAC, wrong key. distinct = (mode, algorithm, error, prior length) and probe classes",
+             "(<= 260 octets in quick), corrupted prior MAC, wrong key. distinct = (mode, algorithm, error, prior length) and probe classes; corruption uses three single-bit masks per covered octet (0x01, 0x02, 0x04)",
         assumptions=COMMON_ASSUMPTIONS + [
             "octets 0-1 (message ID) are not corrupted: the digest covers the original ID from the TSIG RR instead",
             "for subsequent messages only the timers of the TSIG RR are covered (RFC 8945 §4.3.3.1); corruptions of other TSIG "
